@@ -1,16 +1,313 @@
-"""C07 — tables are rectangles.  Present content: the width arithmetic (rich/_ratio.py, _collapse_widths).
-The table renderer's correspondence is added by the layout layer (lib_layout)."""
-from lib_ratio import run_ratio
+"""C07 — tables are rectangles that show every cell in its own column.
+
+Correspondence: the Lean table model (Model/Table.lean; cells are oracles tabulated on real rich, see lib_table) vs
+`Table._calculate_column_widths` and `Console.render(table)` character for character; the width arithmetic
+(rich/_ratio.py, `_collapse_widths`) via lib_ratio; the padding rules of `_get_cells`/`_get_padding_width`; the row
+builders of rich/box.py against the literals translated from rich/box.py.
+Direct evaluation (3d): the executable statements of the theorems of Props/C07.lean on rich's own output
+(rectangle, expand exactness, width fits, rows in order, every cell inside its column's span, fold keeps characters).
+"""
+import itertools
+
+from core import enc_str
+from lib_ratio import enc_ints, run_ratio
+import lib_table
+from lib_table import Bundle
 
 PROPERTY = "C07"
+
+# CODE VARIANT FLAGS — the value that matches TODAY's rich (see Model/Table.lean `Flags`)
+# 1 = `_render` emits `get_row(widths, "mid") * leading` as ONE line (F16); 0 = one separator line per leading
+LEADING_REPEAT = int(__import__("os").environ.get("VERIF_C07_LEADING_REPEAT", "1"))
+# 1 = `_calculate_column_widths` caps the pad target by `min_width - extra` even when the table expands; 0 = repaired
+MIN_WIDTH_CAPS_EXPAND = int(__import__("os").environ.get("VERIF_C07_MIN_WIDTH_CAPS_EXPAND", "1"))
+FLAGS = (LEADING_REPEAT, MIN_WIDTH_CAPS_EXPAND)
+
+BOXES = [None, "HEAVY_HEAD", "ASCII", "SQUARE", "MINIMAL", "SIMPLE", "ROUNDED", "DOUBLE_EDGE", "HORIZONTALS", "SIMPLE_HEAVY",
+         "MINIMAL_DOUBLE_HEAD", "ASCII_DOUBLE_HEAD", "HEAVY", "DOUBLE", "SQUARE_DOUBLE_HEAD", "MINIMAL_HEAVY_HEAD", "SIMPLE_HEAD",
+         "HEAVY_EDGE", "ASCII2"]
+PADDINGS = [(0, 1), (0, 0), (1, 1), (0, 2, 0, 1), (1, 0, 1, 3), (0, 0, 0, 2), (1, 2), (0, 3, 1, 0), 2, (1,)]
+TEXTS = ["a", "bb", "", "ccc dd", "some longer words in a cell", "あい", "あ b いう", "x\ny", "one two\nthree", "ẍy z", "averyveryverylongword",
+         "x  y", "あいうえおかき", "q\n\nr"]
+
+
+def cell_of(rng, nested=True):
+    r = rng.random()
+    if r < 0.62:
+        return ("s", rng.choice(TEXTS))
+    if r < 0.80:
+        return ("t", rng.choice(TEXTS), rng.choice([None, "left", "right", "center", "full"]))
+    if not nested or r < 0.84:
+        return ("none",)
+    if r < 0.90:
+        return ("panel", rng.choice(TEXTS[:8]))
+    if r < 0.93:
+        return ("fit", rng.choice(TEXTS[:6]))
+    if r < 0.97:
+        return ("table", rng.choice([1, 2]))
+    return ("pad", rng.choice(TEXTS[:8]), rng.choice([1, 2]))
+
+
+def base_spec(rng, ncols, nrows, nested=True, plain_cols=False):
+    cols = []
+    for _ in range(ncols):
+        c = {"header": cell_of(rng, nested), "footer": cell_of(rng, nested)}
+        if not plain_cols:
+            c["justify"] = rng.choice(["left", "left", "right", "center", "full"])
+            c["overflow"] = rng.choice(["fold", "fold", "crop", "ellipsis"])
+            c["no_wrap"] = rng.random() < 0.15
+        else:
+            c["overflow"] = "fold"
+        cols.append(c)
+    rows = [{"cells": [cell_of(rng, nested) for _ in range(ncols)], "end_section": rng.random() < 0.2} for _ in range(nrows)]
+    for c in cols:
+        if c["header"][0] == "none":
+            c["header"] = ("s", "")
+        if c["footer"][0] == "none":
+            c["footer"] = ("s", "")
+    return {"cols": cols, "rows": rows, "opts": {}, "avail": 20}
+
+
+def random_opts(rng):
+    o = {
+        "box": rng.choice(BOXES[:4] + BOXES),
+        "show_header": rng.random() < 0.75,
+        "show_footer": rng.random() < 0.35,
+        "show_edge": rng.random() < 0.7,
+        "show_lines": rng.random() < 0.3,
+        "leading": rng.choice([0, 0, 0, 1, 2, 3]),
+        "pad_edge": rng.random() < 0.7,
+        "collapse_padding": rng.random() < 0.3,
+        "expand": rng.random() < 0.4,
+        "title": rng.choice([None, None, "T", "A longer title for the table", ""]),
+        "caption": rng.choice([None, None, None, "cap", "caption that is long enough to wrap"]),
+        "title_justify": rng.choice(["center", "left", "right"]),
+    }
+    return o
+
+
+def column_options(rng, spec, level):
+    """per-column width options; level 0 = none, 1 = some"""
+    for c in spec["cols"]:
+        for k in ("width", "min_width", "max_width", "ratio"):
+            c.pop(k, None)
+        if level and rng.random() < 0.5:
+            k = rng.choice(["width", "min_width", "max_width", "ratio", "ratio", "width+ratio", "min+max"])
+            if k == "width":
+                c["width"] = rng.choice([0, 1, 3, 6, 10])
+            elif k == "min_width":
+                c["min_width"] = rng.choice([0, 2, 5, 9])
+            elif k == "max_width":
+                c["max_width"] = rng.choice([0, 1, 4, 8])
+            elif k == "ratio":
+                c["ratio"] = rng.choice([0, 1, 1, 2, 3])
+            elif k == "width+ratio":
+                c["width"] = rng.choice([0, 2, 5])
+                c["ratio"] = rng.choice([1, 2])
+            else:
+                c["min_width"] = rng.choice([2, 5])
+                c["max_width"] = rng.choice([3, 8])
+
+
+def structural_min(spec):
+    """borders + one cell per column (the statement's 'structural minimum' for wrappable columns)"""
+    o = spec["opts"]
+    n = len(spec["cols"])
+    extra = 0
+    if o.get("box") is not None:
+        extra = (n - 1) + (2 if o.get("show_edge", True) else 0)
+    return extra + n
+
+
+def natural_width(spec):
+    t = lib_table.build_table(spec)
+    console = lib_table.make_console(200)
+    try:
+        return sum(t._calculate_column_widths(console, 200 - t._extra_width)) + t._extra_width
+    except Exception:
+        return 30
+
+
+def run_small(ctx):
+    """padding rules, padding width, box rows: bounded-exhaustive."""
+    from rich import box as rbox
+    from rich.table import Table
+
+    console = lib_table.make_console(40)
+    pads = [(0, 0, 0, 0), (0, 1, 0, 1), (1, 2, 0, 1), (2, 1, 1, 3), (0, 3, 2, 0), (1, 0, 0, 0), (0, 0, 1, 0), (3, 1, 1, 1)]
+    for pad in pads:
+        for pe, cp in itertools.product([False, True], repeat=2):
+            for ncols in (1, 2, 3):
+                for nrows in (0, 1, 2, 3):
+                    for sh, sf in itertools.product([False, True], repeat=2):
+                        t = Table(*["h"] * ncols, padding=pad, pad_edge=pe, collapse_padding=cp, show_header=sh, show_footer=sf)
+                        for _ in range(nrows):
+                            t.add_row(*["c"] * ncols)
+                        for ci, column in enumerate(t.columns):
+                            cells = list(t._get_cells(console, ci, column))
+                            for ri, cell in enumerate(cells):
+                                r = cell.renderable
+                                got = "-" if isinstance(r, str) else f"{r.top} {r.right} {r.bottom} {r.left}"
+                                ctx.case("table.cell_padding", [*pad, int(pe), int(cp), int(ci == 0), int(ci == ncols - 1), int(ri == 0), int(ri == len(cells) - 1)],
+                                         got, shape=f"pe{int(pe)}cp{int(cp)}", sample=f"Table(padding={pad},pad_edge={pe},collapse_padding={cp})._get_cells col {ci}/{ncols} row {ri}/{len(cells)}")
+                            ctx.case("table.padding_width", [*pad, int(cp), ci], t._get_padding_width(ci), sample=f"Table(padding={pad},collapse_padding={cp})._get_padding_width({ci})")
+    from rich.cells import cell_len
+
+    names = sorted(n for n in dir(rbox) if isinstance(getattr(rbox, n), rbox.Box))
+    width_sets = [[], [0], [3], [1, 2], [2, 0, 1], [4, 1, 1, 2]]
+    for name in names:
+        bx = getattr(rbox, name)
+        ctx.check(all(cell_len(ch) == 1 for line in str(bx).splitlines() for ch in line) and [len(l) for l in str(bx).splitlines()] == [4] * 8,
+                  "box-literal-shape", name, "a box literal is not 8 lines of 4 characters of cell width 1")
+        for ws in width_sets:
+            ctx.case("box.row", [name, "top", 1, enc_ints(ws)], enc_str(bx.get_top(ws)), sample=f"box.{name}.get_top({ws})")
+            ctx.case("box.row", [name, "bottom", 1, enc_ints(ws)], enc_str(bx.get_bottom(ws)), sample=f"box.{name}.get_bottom({ws})")
+            for level in ("head", "row", "mid", "foot"):
+                for edge in (0, 1):
+                    got = bx.get_row(ws, level, edge=bool(edge))
+                    ctx.case("box.row", [name, level, edge, enc_ints(ws)], enc_str(got), sample=f"box.{name}.get_row({ws},{level!r},edge={bool(edge)})")
+                    ctx.check(cell_len(got) == sum(ws) + max(len(ws) - 1, 0) + 2 * edge, "box_row_width", (name, level, edge, ws), f"get_row gives {got!r}")
+    ctx.flush()
+
+
+def widths_for(rng, spec, count, dense):
+    smin = structural_min(spec)
+    nat = natural_width(spec)
+    cands = list(range(smin, min(smin + dense, 61))) + [min(max(nat + d, smin), 60) for d in (-3, -1, 0, 1, 4)]
+    cands += [rng.randint(smin, max(smin, min(nat + 8, 60))) for _ in range(count)]
+    out = []
+    for w in cands:
+        if w not in out:
+            out.append(w)
+    rng.shuffle(out)
+    return out[:count]
+
+
+def table_jobs(ctx):
+    """the list of bundle jobs (wtab, flags, [spec, ...]) — everything random is drawn here, from ctx.rng"""
+    rng = ctx.rng
+    quick = ctx.quick
+    jobs = []
+    # ---- A: one factor at a time (and interacting pairs) around plain small tables, every width from the structural
+    #         minimum up (the bounded-exhaustive part)
+    contents = [(1, 1), (2, 2), (3, 1), (2, 0)]
+    factor_values = {
+        "box": BOXES if not quick else BOXES[:8],
+        "show_header": [False], "show_footer": [True], "show_edge": [False], "show_lines": [True],
+        "leading": [1, 2, 3], "pad_edge": [False], "collapse_padding": [True], "expand": [True],
+        "padding": PADDINGS[1:], "title": ["T", "A longer title for the table"], "caption": ["caption text"],
+        "min_width": [6, 14, 30], "width": [8, 17],
+    }
+    for ncols, nrows in contents:
+        spec = base_spec(rng, ncols, nrows, nested=False, plain_cols=True)
+        variants = [{}]
+        for k, vals in factor_values.items():
+            variants += [{k: v} for v in vals]
+        variants += [{"box": "SQUARE", "leading": 2, "show_lines": True}, {"show_header": False, "show_footer": True},
+                     {"show_footer": True, "show_lines": True}, {"show_footer": True, "leading": 1}, {"box": None, "show_edge": False},
+                     {"pad_edge": False, "collapse_padding": True, "padding": (1, 2, 1, 3)}, {"expand": True, "min_width": 8},
+                     {"expand": True, "box": None}, {"box": "ASCII", "show_edge": False, "show_lines": True}]
+        specs = []
+        for ov in variants:
+            s = dict(spec, opts=dict(ov))
+            smin = structural_min(s)
+            nat = natural_width(s)
+            top = min(max(nat + 3, smin + 4), 36)
+            ws = range(smin, top + 1) if not quick else sorted(set(list(range(smin, min(smin + 4, top + 1))) + [max(smin, nat - 2), max(smin, nat), top]))
+            specs += [dict(s, avail=w) for w in ws]
+        for i in range(0, len(specs), 60):
+            jobs.append((40, FLAGS, specs[i:i + 60]))
+    # ---- B: seeded structured random tables: all options, column options, nested cells, ragged columns
+    n_bundles = 64 if quick else 1500
+    for bi in range(n_bundles):
+        ncols = rng.choice([1, 2, 2, 3, 3, 4, 5, 6])
+        nrows = rng.choice([0, 1, 1, 2, 3, 4, 8]) if ncols <= 3 else rng.choice([0, 1, 2, 3])
+        spec = base_spec(rng, ncols, nrows, nested=True)
+        if rng.random() < 0.12 and ncols >= 2:
+            spec["cols"][-1]["late"] = True
+        elif rng.random() < 0.08 and nrows >= 1:
+            # a row with more cells than columns: add_row creates the column and back-fills the earlier rows
+            k = rng.randrange(nrows)
+            spec["rows"][k]["extra"] = [cell_of(rng, nested=False)]
+            spec["has_extra"] = True
+        spec["via_column_objects"] = rng.random() < 0.2
+        pad_choices = [rng.choice(PADDINGS), rng.choice(PADDINGS[:3])]
+        specs = []
+        for vi in range(7 if quick else 10):
+            o = random_opts(rng)
+            o["padding"] = rng.choice(pad_choices)
+            column_options(rng, spec, level=rng.random() < 0.5)
+            s = {"cols": [dict(c) for c in spec["cols"]], "rows": spec["rows"], "opts": o, "via_column_objects": spec["via_column_objects"],
+                 "has_extra": spec.get("has_extra", False)}
+            if rng.random() < 0.2:
+                o["min_width"] = rng.choice([0, 5, 12, 25, 50])
+            if rng.random() < 0.15:
+                o["width"] = rng.choice([structural_min(s), structural_min(s) + 3, 12, 25, 40])
+            specs += [dict(s, avail=w) for w in widths_for(rng, s, 3, dense=3)]
+        jobs.append((64, FLAGS, specs))
+    return jobs
+
+
+def run_tables(ctx):
+    import multiprocessing
+    import os
+
+    jobs = table_jobs(ctx)
+    ctx.note("table:bundles", len(jobs))
+    procs = max(1, min(14, (os.cpu_count() or 2) - 1))
+    with multiprocessing.get_context("fork").Pool(procs) as pool:
+        chunk = []
+        for res in pool.imap(lib_table.run_job, jobs):
+            chunk.append(res)
+            if len(chunk) >= 24:
+                lib_table.account(ctx, chunk)
+                chunk = []
+        lib_table.account(ctx, chunk)
 
 
 def run(ctx):
     run_ratio(ctx, scale=1.0 if ctx.quick else 25.0)
-    try:
-        import lib_layout
-    except ImportError:
-        lib_layout = None
-    if lib_layout is not None and hasattr(lib_layout, "run_c07"):
-        lib_layout.run_c07(ctx)
     ctx.flush()
+    run_small(ctx)
+    run_tables(ctx)
+    ctx.flush()
+    ctx.rule = (
+        "ratio/collapse arithmetic: bounded-exhaustive + seeded random (lib_ratio); _get_cells padding rules exhaustive over 8 paddings x "
+        "pad_edge x collapse_padding x position; every box x 6 width vectors x 6 row kinds; tables: one-factor-at-a-time and interacting pairs "
+        "of all table options around 4 plain tables at every available width from the structural minimum up, then seeded random tables "
+        "(1..6 columns, 0..8 rows, all table and column options, nested Panel/Table/Padding cells, wide and zero-width characters, "
+        "ragged columns) x several available widths; distinct = distinct canonical requests (pool + variant)"
+    )
+    ctx.assumptions += [
+        "cells are oracles: the model sees each padded cell only through Measurement.get and console.render_lines tabulated on real rich "
+        "for widths 0..W (contract checked per entry: every rendered line has exactly the requested cell width; 0 <= min <= max <= w)",
+        "styles, links and control segments are not part of the model (lines are compared as plain text)",
+        "console: legacy_windows=False, ascii_only=False (Box.substitute is the identity), highlight=False",
+    ]
+
+
+def replay(ctx, case):
+    spec = case.get("input")
+    print("site:", case.get("site"))
+    print("what:", case.get("what"))
+    if isinstance(spec, (list, tuple)) and spec and isinstance(spec[0], dict):
+        spec = spec[0]
+    if isinstance(spec, dict) and "cols" in spec:
+        for c in spec["cols"]:
+            for k in ("header", "footer"):
+                c[k] = tuple(c[k])
+        for r in spec["rows"]:
+            r["cells"] = [tuple(x) for x in r["cells"]]
+        if "padding" in spec["opts"]:
+            spec["opts"]["padding"] = tuple(spec["opts"]["padding"])
+        before = len(ctx.failures)
+        lib_table.account(ctx, [lib_table.run_job((64, FLAGS, [spec]))])
+        t = lib_table.build_table(spec)
+        c = lib_table.make_console(spec["avail"])
+        c.print(t)
+        print(c.file.getvalue())
+        return len(ctx.failures) == before
+    return False
+
+
+MANIFEST = {}
